@@ -45,8 +45,7 @@ def cases(ctx):
         if k.get_public_key().to_bytes()[0] == 0: lz.append(d)
     for d in secrets + lz:
         db = d.to_bytes(32, 'big')
-        net = rng.choice(NETS)
-        for c in (1, 0):
+        for net, c in [(rng.choice(NETS), rng.choice([0, 1])) for _ in range(3)]:
             ctx.count('wif-' + net)
             yield Case(f'wif_enc {np(net)} {hx(db)} {c}', 'ms', nontrivial=net != 'testnet' or d in (1, N - 1), tag='wif',
                        spec=lambda ans, net=net, db=db, c=c: (f's:wif_spec {np(net)} {hx(db)} {c}', ans))
@@ -112,13 +111,17 @@ def explicit_spec(ans, args):
     return ('s:raw ' + ('ok ' + hx(d.to_bytes(32, 'big')) if 1 <= d < N else 'err'), ans)
 
 
+PRIVS = {}
+
+
 def impl(op, a, ctx):
     from bitcoinutils.setup import setup
     from bitcoinutils.keys import PrivateKey, PublicKey
     F = Fields(a)
     if op == 'wif_enc':
         net = F.next().split(':')[0]; d = F.bytes(); c = F.bool(); setup(net)
-        return 'ok ' + sh(PrivateKey(b=d).to_wif(compressed=c))
+        k = PRIVS.setdefault(d, PrivateKey(b=d))        # one object per secret for the whole run
+        return 'ok ' + sh(k.to_wif(compressed=c))
     if op == 'wif_dec':
         net = F.next().split(':')[0]; w = F.bytes().decode(); setup(net)
         return 'ok ' + hx(PrivateKey(wif=w).to_bytes())
